@@ -137,7 +137,7 @@ SuccessIsReal == res = "synced" => codes # <<>> /\ codes[Len(codes)] = 0 /\ (kin
 FailureIsReported == (pc = "idle" /\ res \in {"synced", "skipped"}) => (codes # <<>> /\ codes[Len(codes)] = 0)
 SkipIsFresh == res = "skipped" => /\ kind = "ts" /\ ~force /\ cached # NoStamp /\ gated
                                   /\ ~NeedFull(cached, fetched, Fwd, Neg)
-StampHonest == pc = "idle" => trusted
+StampHonest == (pc = "idle" /\ kind = "ts") => trusted
 CacheCoherent == (pc = "idle" /\ kind = "ts") => cached = disk
 ForceNeverSkips == [][(res' = "skipped" /\ res # "skipped") => ~force']_vars
 CacheMoves == [][cached' # cached => ((res' = "synced" /\ pc = "try") \/ (pc = "idle" /\ pc' = "idle"))]_vars
